@@ -18,3 +18,8 @@ chk("C08", "model_checking",
     "Trees!Code gives the integers (k, nsym, constants) of a label list; TLC enumerates every well-formed label list up to 5 labels over a vocabulary with integers and several parameters and both aifeyn_complexity and tree_to_aifeyn are compared with the closed form evaluated from those integers; for generated libraries Library.tla checks line alignment and returns the model's code for every line, compared with aifeyn_n.txt.",
     "P3: closed form evaluated in double precision from exact integers (1e-9). Exhaustive in the vocabulary and over every line of the listed libraries.",
     "TLA+ definition of the tree code, TLC-enumerated label lists replayed into both APIs; library trace judged by TLC", "5 C08")
+
+chk("C14", "model_checking",
+    "Partition.tla states split_idx (numpy.array_split) and get_functions (ceil, the 'many cores' correction loop as explicit steps, last rank takes the rest) and TLC proves Tiles for every (N,P) in the bounds; the real functions are run for every (N,P,r) and their slices judged by PartitionJudge!Tiles. FS.tla models the constructor's isdir/mkdir steps per rank and the rank-0-creates/barrier/write protocol; every interleaving TLC enumerates is replayed on real processes by the stand-in's scheduler and the executed steps must be the requested behaviour. The four fitting stages run on P ranks (incl. P > N; free-running and with rank 0 slowest), their coordinator traces are validated against CollTrace.tla and their outputs are byte-compared with the 1-rank run.",
+    "Exhaustive for (N,P) <= (24,12) quick / (40,20) thorough and for all start-up interleavings of 2 (quick) / 3 (thorough) ranks; stage runs are a finite list of rank counts. Trusted: the stand-in's scheduler, per-function re-seeding of numpy.random.",
+    "TLA+ models Partition/FS/Coll; TLC-enumerated schedules replayed on real processes; slices and coordinator traces judged by TLC", "5 C14")
